@@ -25,6 +25,18 @@ def main():
     pid = a.pid.upper()
     if a.replay:
         a.replay = os.path.abspath(a.replay)
+    # a check that hangs must not hang its caller: after a generous limit the process reports a machinery failure and ends
+    import faulthandler
+    import threading
+    limit = float(os.environ.get("VERIF_WATCHDOG_S", "2400" if a.tier == "quick" else "14000"))
+
+    def give_up():
+        print("MACHINERY-FAILURE property=%s no result after %d s (watchdog); stacks follow on stderr" % (pid, limit), flush=True)
+        faulthandler.dump_traceback(all_threads=True)
+        os._exit(2)
+    dog = threading.Timer(limit, give_up)
+    dog.daemon = True
+    dog.start()
     scratch = tempfile.mkdtemp(prefix="verif-cwd-")
     os.chdir(scratch)  # the library writes dfa_db/ and BiSC files relative to the cwd
     rc = 2
